@@ -216,4 +216,23 @@ func init() {
 	mutant("C20", "limiter-per-connection", "C20.R3", "ratelimit/listener.go", "\t\trxLimiter: l.rxLimiter,\n\t\ttxLimiter: l.txLimiter,\n\t}, c, connfu.Config{})", "\t\trxLimiter: cloneLimiter(l.rxLimiter),\n\t\ttxLimiter: cloneLimiter(l.txLimiter),\n\t}, c, connfu.Config{})").and("ratelimit/ratelimit.go", "func newRateLimiter(bandwidth int64) *rate.Limiter {", "func cloneLimiter(l *rate.Limiter) *rate.Limiter {\n\tif l == nil {\n\t\treturn nil\n\t}\n\treturn rate.NewLimiter(l.Limit(), l.Burst())\n}\n\nfunc newRateLimiter(bandwidth int64) *rate.Limiter {")
 	mutant("C20", "zero-limit-throttles", "C20.R1,C20.R2", "ratelimit/listener.go", "\tif readLimit > 0 {\n\t\ttxLimiter = newRateLimiter(readLimit)\n\t}", "\tif readLimit >= 0 {\n\t\ttxLimiter = newRateLimiter(readLimit)\n\t}")
 	mutant("C20", "wait-for-buffer-size", "C20.R2", "ratelimit/conn.go", "\t\tc.txLimiter.WaitN(waitContext, n)", "\t\tc.txLimiter.WaitN(waitContext, len(b))")
+
+	// rules added after the second seeding round
+	mutant("C12", "unfix-label-unsanitised", "C12.R7", "net_metrics.go", "\treturn strings.ToValidUTF8(host, \"\\uFFFD\")", "\treturn host + strings.Repeat(\"\", 0)")
+	mutant("C12", "error-label-from-error-text", "C12.R7", "http_proxy_errors.go", "\t\tlabel = \"net_\" + netErr.Op\n", "\t\tlabel = \"net_\" + netErr.Err.Error()\n")
+	mutant("C12", "request-host-in-label", "C12.R7", "middleware/prometheus.go", "\tlabels := []string{req.Method}\n", "\tlabels := []string{req.Method + req.Host}\n")
+	mutant("C12", "labeler-installed", "C12.R7", "http_proxy.go", "func (hp *HTTPProxy) upstreamProxyURL() *url.URL {", "var _ = middleware.WithCustomLabeler(\"host\", func(r *http.Request) string { return r.Host })\n\nfunc (hp *HTTPProxy) upstreamProxyURL() *url.URL {")
+	mutant("C01", "body-closed-only-on-roundtrip-path", "C01.R7", "internal/martian/proxy_conn.go", "\tdefer req.Body.Close()\n\n\tif p.closing() {\n\t\treturn errClose\n\t}\n", "\tif p.closing() {\n\t\treturn errClose\n\t}\n\tdefer req.Body.Close()\n")
+	mutant("C04", "timeframe-inclusive-end-hour", "C04.R3,C04.R8", "ruleset/timeframe.go", "localTime.Hour() < t.HourEnd {", "localTime.Hour() <= t.HourEnd {")
+	mutant("C04", "timeframe-reads-clock", "C04.R8", "ruleset/timeframe.go", "\tif localTime.Hour() >= t.HourStart && localTime.Hour() < t.HourEnd {", "\tif localTime.Hour() >= t.HourStart && localTime.Hour() < t.HourEnd && !time.Now().IsZero() {")
+	mutant("C06", "hopbyhop-not-stripped-on-connect", "C06.R1", "internal/martian/header/hopbyhop_modifier.go", "func (m *hopByHopModifier) ModifyRequest(req *http.Request) error {\n", "func (m *hopByHopModifier) ModifyRequest(req *http.Request) error {\n\tif req.Method == http.MethodConnect {\n\t\treturn nil\n\t}\n")
+	mutant("C07", "client-tls-config-shared", "C07.R6", "internal/martian/proxy_connect.go", "\t\treturn tr.TLSClientConfig.Clone()", "\t\treturn tr.TLSClientConfig")
+	mutant("C08", "reentrant-header-lock", "C08.R7", "proxyproto/net.go", "\t\tc.headerErr = r.err\n", "\t\tc.headerErr = r.err\n\t\tif r.err != nil {\n\t\t\tc.headerErr = fmt.Errorf(\"header from %s: %w\", c.RemoteAddr(), r.err)\n\t\t}\n")
+	mutant("C10", "empty-settings-swallowed", "C10.R9,C10.R6", relay, "\t\t\t}); err == nil {\n\t\t\t\tr.destMu.Lock()\n\t\t\t\terr = r.dest.WriteSettings(settings...)", "\t\t\t}); err == nil && len(settings) > 0 {\n\t\t\t\tr.destMu.Lock()\n\t\t\t\terr = r.dest.WriteSettings(settings...)")
+	mutant("C10", "ping-ack-not-relayed", "C10.R9", relay, "\tcase *http2.PingFrame:\n\t\tr.destMu.Lock()\n\t\terr = r.dest.WritePing(f.IsAck(), f.Data)\n\t\tr.destMu.Unlock()", "\tcase *http2.PingFrame:\n\t\tif !f.IsAck() {\n\t\t\tr.destMu.Lock()\n\t\t\terr = r.dest.WritePing(f.IsAck(), f.Data)\n\t\t\tr.destMu.Unlock()\n\t\t}")
+	mutant("C10", "reset-drops-stream-queue", "C10.R10", relay, "\t\tstreamID: id,\n\t\terrCode:  errCode,\n\t})\n}", "\t\tstreamID: id,\n\t\terrCode:  errCode,\n\t})\n\tr.flowMu.Lock()\n\tdelete(r.outputBuffers, id)\n\tr.flowMu.Unlock()\n}")
+	mutant("C12", "basic-auth-slices-past-checked-length", "C12.R8", "middleware/basic_auth.go", "auth[len(prefix):])", "auth[len(prefix)+1:])")
+	mutant("C12", "connect-rejection-body-closed", "C12.R9", "internal/martian/proxy_connect.go", "\tres, conn, err = d.DialContextR(ctx, \"tcp\", req.URL.Host)\n", "\tres, conn, err = d.DialContextR(ctx, \"tcp\", req.URL.Host)\n\tif res != nil {\n\t\tdefer res.Body.Close()\n\t}\n")
+	mutant("C14", "unknown-keyword-is-direct", "C14.R5", "pac/proxy.go", "\tif s == \"DIRECT\" {\n\t\treturn Proxy{Mode: DIRECT}, nil\n\t}\n", "\tif s == \"DIRECT\" || !strings.Contains(s, \":\") {\n\t\treturn Proxy{Mode: DIRECT}, nil\n\t}\n")
+	mutant("C09", "relay-locks-flow-twice", "C09.R8", relay, "func (r *relay) outputBuffer(streamID uint32) *outputBuffer {\n", "func (r *relay) outputBuffer(streamID uint32) *outputBuffer {\n\tr.flowMu.Lock()\n\tdefer r.flowMu.Unlock()\n")
 }
